@@ -7,7 +7,7 @@ def run_data(chk, parts, replay=None):
     if chk.thorough:
         opts = {'types': ALLTYPES, 'compressions': ['None', 'Deflate', 'Auto']}
     else:
-        opts = {'types': ['Double', 'String', ALLTYPES[chk.seed % 10]], 'compressions': [['None', 'Deflate', 'Auto'][chk.seed % 3]]}
+        opts = {'rotate': True}        # per line: Double + String/Bool + one more type, one compression setting, all rotating with the line
     rp = vcheck.Replayer(binary, seed=chk.seed, opts=opts, chunk=60, timeout_per_line=60)
     if replay is not None:
         v = rp.single(replay)
@@ -35,8 +35,8 @@ def run_data(chk, parts, replay=None):
     for c in sims:
         vcheck.absorb_sim(chk, rp, 'NixData', 'MC_NixData_%s.cfg' % c, 240 if chk.thorough else 24, 24)
     chk.traces_validated = len(chk.distinct)
-    chk.extra['element_types'] = opts['types']
-    chk.extra['compressions'] = opts['compressions']
+    chk.extra['element_types'] = opts.get('types', 'Double + String or Bool + one of the 12 types, rotating with the line')
+    chk.extra['compressions'] = opts.get('compressions', 'None / DeflateNormal / file-level Auto, rotating with the line')
     chk.assumptions += ['element values come from per-type dictionaries (code 0 = fill value; integers exact, floats halves/quarters, strings short/long/UTF-8 by seed); '
                         'fidelity for values outside the dictionaries is not decided',
                         'calibrated reads are compared exactly (coefficients and values are small dyadic numbers, so the polynomial is exact in double)',
